@@ -3,8 +3,8 @@ from propcfg.common import *
 CFG = {
     "disabled": True,
     "props": "Props/C17.v",
-    "corr": ["Corr/HashCorr.v"],
-    "engines": [("hash", [])],
+    "corr": ["Corr/HashCorr.v", "Corr/CodecCorr.v"],
+    "engines": [("hash", []), ("infojson", [])],
     "axioms": [],
     "trusted": COMMON_TB + [
         "SHA-256 and BLAKE2b-256 idealised as injective functions (hypotheses `injective H256`, `injective Hb` of the theorems; false in mathematics, standard in symbolic models); BLAKE2b-256 has one fixed positive output length",
